@@ -202,6 +202,9 @@ func (e *Enc) structOf(t types.Type) *structInfo {
 	for i := 0; i < st.NumFields(); i++ {
 		f := st.Field(i)
 		acc := fmt.Sprintf("%s_%s", name, sanitize(f.Name()))
+		if f.Name() == "_" {
+			acc = fmt.Sprintf("%s_blank%d", name, i)
+		}
 		si.fields = append(si.fields, acc)
 		si.ftypes = append(si.ftypes, f.Type())
 		si.fnames = append(si.fnames, f.Name())
